@@ -91,6 +91,10 @@ class Run:
         for fid, (f, n) in sorted(known.items()):
             print('KNOWN-FINDING: property=%s %s (%s; %d occurrence(s) in this run)' % (self.prop, f['what'], fid, n))
         replay_paths = []
+        if os.path.isdir(REPLAY_DIR):
+            for fn in os.listdir(REPLAY_DIR):
+                if fn.startswith('%s_%s_' % (self.prop, self.tier)):
+                    os.unlink(os.path.join(REPLAY_DIR, fn))
         if fresh:
             os.makedirs(REPLAY_DIR, exist_ok=True)
             # one replay file per distinct (clause, signature) class, first case of each, at most 20
